@@ -148,13 +148,25 @@ func (w *World) VerifyRefinement(implKey string) (*VC, error) {
 		}
 		c := vc.declare(fmt.Sprintf("rf!p%d", i), s)
 		vc.assume(True, vc.wfTerm(c, p.Type(), nil, nil))
+		// data invariants of the parameters hold on entry, as in the function's own VC
+		for _, t := range w.dataInvTerms(&Val{T: c, Ty: p.Type()}, pre, vc) {
+			vc.assume(True, t)
+		}
 		tv := TV{T: c, Ty: p.Type()}
 		for _, e := range []*Env{implPre, implPost} {
 			e.vars[p.Name()] = tv
 		}
 		if i < len(tnames) {
+			ttv := tv
+			if tnames[i] == "recv" && s == SInt {
+				if _, isPtr := types.Unalias(p.Type()).Underlying().(*types.Pointer); isPtr {
+					vc.assume(True, Not(Eq(c, IntLit(0)))) // methods are verified for non-nil receivers (thin default contract)
+					// the interface contract talks about the interface value holding the receiver
+					ttv = TV{T: MkIface(IntLit(int64(w.tagOf(p.Type()))), c), Ty: types.NewInterfaceType(nil, nil)}
+				}
+			}
 			for _, e := range []*Env{tgtPre, tgtPost} {
-				e.vars[tnames[i]] = tv
+				e.vars[tnames[i]] = ttv
 			}
 			if tnames[i] == tc.Opts["keyparam"] {
 				keyTerm = c
@@ -223,6 +235,11 @@ func (w *World) VerifyRefinement(implKey string) (*VC, error) {
 		}
 		ipost = append(ipost, t)
 	}
+	type tgtClause struct {
+		nm string
+		t  *Term
+	}
+	var tposts []tgtClause
 	for k, cl := range tc.Ensures {
 		t, err := tgtPost.CompileBool(cl.E)
 		if err != nil {
@@ -232,7 +249,36 @@ func (w *World) VerifyRefinement(implKey string) (*VC, error) {
 		if nm == "" {
 			nm = fmt.Sprintf("%d", k+1)
 		}
-		vc.oblige("refine", fmt.Sprintf("refine/%s/post/%s", relName(fn), nm), props, And(hyp, And(ipost...)), t, "")
+		tposts = append(tposts, tgtClause{nm, t})
+	}
+	// what the implementation's frame leaves alone is the same before and after
+	if fc.HasAssigns {
+		touched := map[string]bool{}
+		all := false
+		for _, a := range fc.Assigns {
+			ks := w.assignKeys(a, implPre)
+			if len(ks) == 0 {
+				all = true
+			}
+			for _, k := range ks {
+				touched[k] = true
+			}
+		}
+		if !all {
+			for _, key := range sortedKeys(w.heapSort) {
+				if touched[key] || strings.HasSuffix(key, "@entry") {
+					continue
+				}
+				_, in0 := vc.decl[heapSym(key, "0")]
+				_, in1 := vc.decl[heapSym(key, "1")]
+				if in0 && in1 {
+					vc.assume(True, Eq(pre.get(key), post.get(key)))
+				}
+			}
+		}
+	}
+	for _, tp := range tposts {
+		vc.oblige("refine", fmt.Sprintf("refine/%s/post/%s", relName(fn), tp.nm), props, And(hyp, And(ipost...)), tp.t, "")
 	}
 	// frame: the implementation may assign only what the target allows
 	if tc.HasAssigns {
@@ -287,6 +333,8 @@ func (w *World) assignKeys(a string, env *Env) []string {
 			return nil
 		}
 		return []string{w.elemHeap(types.Unalias(tv.Ty).Underlying().(*types.Slice).Elem())}
+	case strings.HasPrefix(a, "ghost("):
+		return []string{"GH:int"}
 	case strings.HasPrefix(a, "*"):
 		e, err := parseExpr(a[1:])
 		if err != nil {
